@@ -151,6 +151,7 @@ def run(prop, tier, seed, replay):
                             pos = rng.randrange(N + 1)
                             cra, cdec = np.insert(cra, pos, far[0]), np.insert(cdec, pos, far[1])
                         given = np.column_stack([cra, cdec])
+                        given_buf = given.copy()       # the caller's own array: reused for something else afterwards
                         try:
                             if mode == "centers_and_name":
                                 # given centres take precedence over a patch-index column (documented); the column
@@ -158,11 +159,13 @@ def run(prop, tier, seed, replay):
                                 df = C.dataframe(s["ra"], s["dec"], s["z"], s["w"], (np.asarray(s["patch"]) + 1) % N)
                                 cat = Catalog.from_dataframe(root / f"c{ci}", df, ra_name="ra", dec_name="dec", redshift_name="z",
                                                              weight_name="w" if s["w"] is not None else None, patch_name="patch",
-                                                             patch_centers=AngularCoordinates(given), degrees=False,
+                                                             patch_centers=AngularCoordinates(given_buf), degrees=False,
                                                              overwrite=True, **({} if chunk is None else {"chunksize": chunk}))
+                                given_buf[:] = 0.25
                             else:
                                 cat = C.make_catalog(root / f"c{ci}", s["ra"], s["dec"], z=s["z"], w=s["w"],
-                                                     centers=AngularCoordinates(given), chunksize=chunk)
+                                                     centers=AngularCoordinates(given_buf), chunksize=chunk)
+                            given_buf[:] = 0.25        # a catalog must not keep looking at the caller's memory
                         except Exception as e:  # noqa: BLE001
                             ck.case(None, desc if N >= 2 else None)
                             # legitimate only if some given centre really attracts no object
